@@ -263,6 +263,14 @@ func c11Thorough(e *c11Env, do func(*c11Case, string) error) error {
 		faults := map[int]c11Fault{}
 		if i%3 != 0 {
 			h, faults = c11AddFaults(c.Rng, h, 0.15)
+			// no COMMIT-level faults next to the production webhook service: its delivery goroutines commit
+			// their own bookkeeping concurrently and would swallow the armed fault (the commit hook cannot tell
+			// whose COMMIT it sees); the repository-level fault is exact
+			for i, f := range faults {
+				if f.Mode == 'c' {
+					faults[i] = c11Fault{Mode: 'b', K: f.K}
+				}
+			}
 		}
 		// at most one H (it IS the webhooks service) and one C (there is one "headers" channel)
 		var chans []c11Spec
